@@ -7,7 +7,7 @@
    emitted (cut to c visible runes when AutoTrim a is on). *)
 From Coq Require Import List NArith ZArith Bool Arith.
 From RareV Require Import Base.Hex Base.Res Gen.GenTerm Model.Trim Model.Term.
-From RareV Require Import Proofs.TrimProof Proofs.TermEmu Proofs.TermMain Proofs.TrimStore.
+From RareV Require Import Proofs.TrimProof Proofs.TermEmu Proofs.TermMain Proofs.TrimStore Proofs.TermBuffered.
 Import ListNotations.
 
 (* Clause 1 (screen, close).  For every history of (line, text) updates whose texts are
@@ -112,6 +112,20 @@ Proof.
 Qed.
 Print Assumptions C20_buffered_same.
 
+(* Clause 2, on the screen: on a tty with ONLCR (either margin behaviour), for every history of
+   well-formed texts that fit, the bytes BufferedTerm prints on Close put on every row l the same
+   cells the live writer leaves there (C20_screen_latest), with the cursor below the last line *)
+Theorem C20_buffered_screen : forall (tc : tcfg) (c : cfg) (ups : list (nat * text)) (out : text) (v : vterm),
+  onlcr tc = true ->
+  (forall u, In u ups -> wf_text (snd u) = true /\
+     length (visible (write_line_no_wrap (autotrim c) (cols c) (snd u))) <= width tc) ->
+  bt_session (autotrim c) (cols c) ups = Ok (out, v) ->
+  exists sc, run tc (scr0, Ground) out = (sc, Ground) /\
+    (forall l, nth l (rows sc) [] = visible (write_line_no_wrap (autotrim c) (cols c) (last_write l ups))) /\
+    crow sc = line_count 0 ups /\ ccol sc = 0 /\ cvis sc = true.
+Proof. exact C20_buffered_screen_proof. Qed.
+Print Assumptions C20_buffered_screen.
+
 (* VirtualTerm (rare histo / fuzzy print through it): the store after any history *)
 Theorem C20_virtual_store : forall (size : nat) (ups : list (nat * text)),
   vt_run (vt_new size) ups =
@@ -137,6 +151,10 @@ Theorem C20_check_buffered_ok : forall (c : cfg) (ups : list (nat * text)) (out 
   bt_session (autotrim c) (cols c) ups = Ok (out, v) -> C20_check_buffered c ups out = true.
 Proof. exact C20_check_buffered_sound. Qed.
 Print Assumptions C20_check_buffered_ok.
+(* ... and the trim clauses' boolean form accepts the model's own cut, for every width and text *)
+Theorem C20_check_trim_ok : forall (c : Z) (s : text), C20_check_trim c s (trim c s) = true.
+Proof. exact C20_check_trim_sound. Qed.
+Print Assumptions C20_check_trim_ok.
 
 (* Recorded finding C20-dec-margin (the full statement is false on DEC-style terminals; the
    restriction to texts narrower than the terminal is C20_screen_latest with dec tc = true).
